@@ -1,0 +1,17 @@
+//go:build !verif
+
+// Package verifhook provides verification-only yield points. It is compiled in
+// only with the build tag "verif"; without the tag At is an empty function.
+package verifhook
+
+// Func is the signature of an installed hook.
+type Func func(point string, id any)
+
+// Enabled reports whether hooks are compiled in.
+const Enabled = false
+
+// Set is a no-op without the verif build tag.
+func Set(Func) {}
+
+// At is a no-op without the verif build tag.
+func At(string, any) {}
